@@ -125,6 +125,13 @@ def canon(v, mode):
         return ('str', v)
     if isinstance(v, bytes):
         return ('bytes', v)
+    import decimal as _dc, datetime as _dtm, uuid as _uuid
+    if isinstance(v, _dc.Decimal):
+        return ('Decimal', str(v.as_tuple()) if v.is_finite() else str(v))          # exact: sign, digits, exponent
+    if isinstance(v, complex):
+        return ('complex', repr(v))
+    if isinstance(v, (_dtm.datetime, _dtm.date, _dtm.time, _dtm.timedelta, _uuid.UUID)):
+        return (type(v).__name__, repr(v))
     if isinstance(v, dict):
         return ('dict', tuple(sorted(((canon(k, mode), canon(x, mode)) for k, x in v.items()), key=repr)))
     kind = type(v).__name__
